@@ -118,7 +118,7 @@ func runC11(c *ev.Ctx) {
 	r := gen.NewRng(gen.Mix(seed, 1111))
 	nExtra := 8
 	if c.Thorough() {
-		nExtra = 60
+		nExtra = 400
 		lens = append(lens, 5000, 10000, 65536, 125000)
 	}
 	for i := 0; i < nExtra; i++ {
